@@ -53,6 +53,8 @@ its strips of (A, P, R, A_c) of every level (recorded by the coarsening wrapper)
                      `solve` / `bsolve` with smoothed aggregation: the recording wrapper also logs P_tent (T) and the strength pattern (S)
                      of every level; oracle o.saform: P = (I - omega Df^-1 A_f) P_tent on the gathered operators of EVERY level
                      (block products in the order Df^-1 * A, 1e-9), strength pattern of level l = the test with eps_strong * 0.5^l.
+  subdomain deflation  op `sdd` of drv_mpi_sdd (tools/props/c12_sdd.py): amgcl::mpi::subdomain_deflation with constant / linear deflation vectors,
+                     oracle level: rank consistency, exact true residual of the post-processed assembled solution vs the reported one, convergence.
   smoothers          ops `relax` / `brelax` (tools/props/c12_relax.py): amgcl::runtime::mpi::relaxation::wrapper<Backend> itself, all 9 types, built
                      through the property tree on the distributed matrix, apply_pre / apply_post / apply compared with the extracted model
                      DistRelax.v (op m.drelax) exactly where the model run is binary64-exact, else to 2^-40; thin partitions.
@@ -65,8 +67,9 @@ from props.common import account, oracle_run
 from props.mpi_common import run_mpi
 from props import c12_sa
 from props import c12_relax
+from props import c12_sdd
 
-DRIVERS = ["mpi_solve"]
+DRIVERS = ["mpi_solve", "mpi_sdd"]
 MODEL = "distsolve"
 MPIRUN = ["mpirun", "--allow-run-as-root", "--oversubscribe", "--bind-to", "none", "--mca", "mpi_yield_when_idle", "1", "-n"]
 TIMEOUT = 150
@@ -102,6 +105,7 @@ RULE = ("cases derived from VERIF_SEED by tools/props/C12.py: coarsening {aggreg
         "non-trivial = all ranks returned a result line")
 
 ASSUMPTIONS = ASSUMPTIONS + c12_relax.ASSUMPTIONS; TRUSTED_BASE = TRUSTED_BASE + c12_relax.TRUSTED_BASE; RULE = RULE + "; " + c12_relax.RULE
+ASSUMPTIONS = ASSUMPTIONS + c12_sdd.ASSUMPTIONS; TRUSTED_BASE = TRUSTED_BASE + c12_sdd.TRUSTED_BASE; RULE = RULE + "; " + c12_sdd.RULE
 
 COARSENINGS = ["aggregation", "smoothed_aggregation"]
 RELAX = ["spai0", "damped_jacobi", "gauss_seidel", "ilu0", "iluk", "ilup", "ilut", "spai1", "chebyshev"]
@@ -209,6 +213,7 @@ def cases(tier, seed):
     out += c12_sa.sa_cases(tier, seed)
     # ---- the smoothers under MPI on their own (runtime wrapper), against the model DistRelax.v (own random stream)
     out += c12_relax.relax_cases(tier, seed)
+    out += c12_sdd.sdd_cases(tier, seed)
     # ---- PMIS model tie (Pmis.v): pattern graphs x contiguous partitions, exhaustive for small n
     import itertools
     def graph_case(np_, n, edges, p, eps="0", w=None):
@@ -923,8 +928,10 @@ def run(ctx, cases_override=None):
     lines = list(cases_override or cases(ctx["tier"], ctx["seed"]))
     lines += [q for q in (probe_of(l) for l in lines) if q]
     fails = []
-    groups = {}
-    for l in lines: groups.setdefault(np_of(l), []).append(l)
+    groups = {}; sdd_groups = {}
+    # the subdomain-deflation cases (op sdd) run on their own driver drv_mpi_sdd
+    for l in lines: (sdd_groups if c12_sdd.is_sdd(l) else groups).setdefault(np_of(l), []).append(l)
+    for n in sdd_groups: groups.setdefault(n, [])
     by_id = {l.split(" ", 1)[0]: l for l in lines}
     small = ctx.setdefault("c12_small", {})
     frag = {}
@@ -953,6 +960,7 @@ def run(ctx, cases_override=None):
         frag[np_] = fr | set(l.split(" ", 1)[0] for l in groups[np_] if is_pmis(l) and fragile(l))
         go([l for l in groups[np_] if not is_pmis(l) and l.split(" ", 1)[0] not in fr])
         go_single([l for l in groups[np_] if not is_pmis(l) and l.split(" ", 1)[0] in fr])
+        c12_sdd.run_mpi_cases(ctx, sdd_groups.get(np_, []), np_, impls[np_], run_mpi, MPIRUN, TIMEOUT)
     order = sorted(groups)
     batches = [[n for n in order if n <= 4], [n for n in order if 4 < n <= 6], [n for n in order if n > 6]]
     if sum(len(groups[n]) for n in order if n > 4) < 300: batches = [batches[0], batches[1] + batches[2]]
@@ -966,7 +974,7 @@ def run(ctx, cases_override=None):
         for t in ths: t.join()
         tick("mpi batch %s" % batch)
     for np_ in order:
-        ls = groups[np_]; impl = impls[np_]
+        ls = groups[np_] + sdd_groups.get(np_, []); impl = impls[np_]
         account(ctx, ls, impl, nontrivial=lambda op, p, o: bool(o) and not o.startswith(("CRASH", "EXC")) and "EXC" not in o)
         frag_ids = frag[np_]
         crashed = any((v or "").startswith("CRASH") for k, v in impl.items() if k not in frag_ids)
@@ -978,6 +986,7 @@ def run(ctx, cases_override=None):
             try:
                 if op in ("sa", "bsa"): c12_sa.check_sa(l, o, np_, fails, ctx)
                 elif op in ("relax", "brelax"): c12_relax.check_relax(l, o, np_, fails, ctx)
+                elif op == "sdd": c12_sdd.check_sdd(l, o, np_, fails, ctx, lambda key: ns_stat(ctx, key))
                 else: {"solve": check_solve, "pmis": check_pmis, "direct": check_direct, "bsolve": check_bsolve, "bdirect": check_bdirect}[op](l, o, np_, olines, fails, ctx)
             except Exception as e:
                 fails.append(dict(kind="counterexample", case=l, impl=(o or "")[:3000], model=None, op=op, size=len(l), np=np_,
@@ -1050,6 +1059,7 @@ def classify(fail):
       hang / non-finite or non-converged solve, and failed hierarchy checks -- for coarse-blocks and not-repartitioned only
       those of the SECOND and later coarsening steps (the first one does not depend on the defect)"""
     o = fail.get("oracle") or {}
+    if fail.get("op") == "sdd": return c12_sdd.classify(fail)
     try:
         if fail.get("op") == "solve" and o.get("op") == "convergence on an SPD M-matrix":
             c = Cfg(fail["case"])
